@@ -230,7 +230,7 @@ def build_v1(model_dir, truth, table_order=None, aperture_dependent=None, logd_s
 
 
 def build_v2(model_dir, truth, aperture_dependent=None, logd_step=0.02, descending_wav=False,
-             dtype='f8', unit='mJy'):
+             dtype='f8', unit='mJy', with_unc=True):
     os.makedirs(os.path.join(model_dir, 'convolved'), exist_ok=True)
     if aperture_dependent is None:
         aperture_dependent = truth.apertures is not None
@@ -238,7 +238,7 @@ def build_v2(model_dir, truth, aperture_dependent=None, logd_step=0.02, descendi
     write_parameters(model_dir, truth.names, truth.params)
     sc = {'mJy': 1.0, 'Jy': 1e-3, 'uJy': 1e3}[unit]        # truth is in mJy; the cube may be stored in another unit (BUNIT)
     write_cube_file(os.path.join(model_dir, 'flux.fits'), truth.names, truth.wav, truth.apertures,
-                    truth.flux * sc, truth.err * sc, descending_wav=descending_wav, dtype=dtype, unit=unit)
+                    truth.flux * sc, truth.err * sc if with_unc else None, descending_wav=descending_wav, dtype=dtype, unit=unit)
 
 
 def write_filter_text(path, wav_um, response, central, descending=False):
